@@ -63,7 +63,7 @@ func (h *Handler) ServeHTTP(w http.ResponseWriter, r *http.Request) {
 			return
 		}
 
-		http.Redirect(w, r, principalPath, http.StatusPermanentRedirect)
+		http.Redirect(w, r, (&url.URL{Path: principalPath}).String(), http.StatusPermanentRedirect)
 		return
 	}
 
